@@ -323,7 +323,8 @@ func Analyse(in *Interner, data []byte, password string) *Analysis {
 	}
 
 	a.Cyclic = cyclic(pool)
-	if a.Cyclic {
+	if a.Cyclic && os.Getenv("C19_FX6") != "1" {
+		// keystore.FindChain would not return (C19-F6); C19_FX6=1 says the tree under test has the repair
 		return a
 	}
 
